@@ -195,8 +195,8 @@ func c05Specs() []*bfsSpec {
 		}
 		al = append(al, "mtick")
 		cfg := worldCfg{Geom: "gtail", Peers: []peerCfg{silent, silent, silent, silent}, Magnet: true, AutoDrain: true, InfoSize: 40000}
-		specs = append(specs, &bfsSpec{Name: "c05-magnet-resize", Cfg: cfg, Setup: []string{ext0(0, 100000)}, Alphabet: al, Depth: 3, DepthT: 4})
-		specs = append(specs, &bfsSpec{Name: "c05-magnet-resize-small-first", Cfg: cfg, Setup: []string{ext0(0, 20000)}, Alphabet: al, Depth: 3, DepthT: 4})
+		specs = append(specs, &bfsSpec{BothMapOrders: true, Name: "c05-magnet-resize", Cfg: cfg, Setup: []string{ext0(0, 100000)}, Alphabet: al, Depth: 3, DepthT: 4})
+		specs = append(specs, &bfsSpec{BothMapOrders: true, Name: "c05-magnet-resize-small-first", Cfg: cfg, Setup: []string{ext0(0, 20000)}, Alphabet: al, Depth: 3, DepthT: 4})
 	}
 	return specs
 }
